@@ -156,10 +156,10 @@ func typesOf(names []string) []token.Type {
 
 type c15Env struct {
 	noReuse bool
-	sp    *spec.Spec
-	prods map[string]bool // "Head : a b c"
-	d     *cfg.Deriver
-	col   *ev.Collector
+	sp      *spec.Spec
+	prods   map[string]bool // "Head : a b c"
+	d       *cfg.Deriver
+	col     *ev.Collector
 }
 
 func newC15Env(t testing.TB) *c15Env {
